@@ -89,6 +89,7 @@ def run_job(job, PyJMC, jmc_excs):
         for d in job.get("globs", []):
             dd = Path(root) / d
             globs[d] = [rel(root, str(q)) for q in dd.glob("**/*.jmc")] if dd.is_dir() else None
+        os.makedirs(os.path.join(root, job["cwd"]), exist_ok=True)
         os.chdir(os.path.join(root, job["cwd"]))
         del OPENS[:]
         signal.alarm(int(job.get("timeout", 20)))
@@ -161,6 +162,7 @@ def run_seq(seq, PyJMC, jmc_excs):
             for d in job.get("globs", []):
                 dd = Path(root) / d
                 globs[d] = [rel(root, str(q)) for q in dd.glob("**/*.jmc")] if dd.is_dir() else None
+            os.makedirs(os.path.join(root, job["cwd"]), exist_ok=True)
             os.chdir(os.path.join(root, job["cwd"]))
             del OPENS[:]
             signal.alarm(int(job.get("timeout", 20)))
